@@ -27,6 +27,8 @@ type call struct {
 	fin   fin
 	amp   int           // derive amp*1000 child contexts before returning
 	reuse bool          // reuse one response object for all sends, overwrite it after each send
+	pass  string        // pass-through mode (pass.go): "wide" = the requests carry a field the handler's type does not declare
+	shape string
 	gate  chan struct{} // closed by the client driver once the client script has finished
 	done  chan struct{} // closed when the handler returns
 
@@ -105,6 +107,16 @@ type sio interface {
 	setTrailer(metadata.MD)
 	send(n int) (proto.Message, error)
 	recv() (int, proto.Message, error)
+	sendAny(m proto.Message) error // ServerStream.SendMsg with a message of any type (nil: the API has none)
+}
+
+// got: the payload of a request as the handler has it. With a pass-through client it is read from the message's
+// re-encoding (a handler that stores or forwards its request), which shows fields its type does not declare.
+func (c *call) got(typed int, m proto.Message) string {
+	if c.pass == "" || m == nil {
+		return strconv.Itoa(typed)
+	}
+	return wirePayload(m, c.shape == "sstream", c.pass == "wide")
 }
 
 func (f fin) err() error {
@@ -148,7 +160,13 @@ func (c *call) run(io_ sio) error {
 		case 'T':
 			io_.setTrailer(toMD(op.MD))
 		case 'M':
-			m, err := io_.send(op.N)
+			var m proto.Message
+			var err error
+			if handlerSendsWide(c.shape, c.pass) {
+				err = io_.sendAny(wideMsg(c.shape == "sstream", op.N))
+			} else {
+				m, err = io_.send(op.N)
+			}
 			if err != nil {
 				return c.abort(err)
 			}
@@ -177,7 +195,7 @@ func (c *call) run(io_ sio) error {
 			} else if err != nil {
 				return c.abort(err)
 			} else {
-				c.logf("g" + strconv.Itoa(n))
+				c.logf("g" + c.got(n, m))
 				c.mu.Lock()
 				c.recvd = append(c.recvd, m)
 				c.mu.Unlock()
@@ -233,6 +251,7 @@ func (u *unaryIO) send(n int) (proto.Message, error) {
 	u.res = &testproto.UnaryResponse{Msg: word(n)}
 	return u.res, nil
 }
+func (u *unaryIO) sendAny(proto.Message) error { return errors.New("a unary handler returns its typed response") }
 func (u *unaryIO) recv() (int, proto.Message, error) {
 	if !u.first {
 		u.first = true
@@ -279,6 +298,7 @@ func (u *sstreamIO) send(n int) (proto.Message, error) {
 	m := &testproto.ServerStreamResponse{Counter: int32(n)}
 	return m, u.st.Send(m)
 }
+func (u *sstreamIO) sendAny(m proto.Message) error { return u.st.SendMsg(m) }
 func (u *sstreamIO) recv() (int, proto.Message, error) {
 	if !u.first {
 		u.first = true
@@ -313,6 +333,7 @@ func (u *cstreamIO) send(n int) (proto.Message, error) {
 	m := &testproto.ClientStreamResponse{Msg: word(n)}
 	return m, u.st.SendAndClose(m)
 }
+func (u *cstreamIO) sendAny(m proto.Message) error { return u.st.SendMsg(m) }
 func (u *cstreamIO) recv() (int, proto.Message, error) {
 	m, err := u.st.Recv()
 	if err != nil {
@@ -350,6 +371,7 @@ func (u *bidiIO) send(n int) (proto.Message, error) {
 	m := &testproto.BidiStreamResponse{Msg: word(n)}
 	return m, u.st.Send(m)
 }
+func (u *bidiIO) sendAny(m proto.Message) error { return u.st.SendMsg(m) }
 func (u *bidiIO) recv() (int, proto.Message, error) {
 	m, err := u.st.Recv()
 	if err != nil {
